@@ -95,6 +95,7 @@ def gen_perm_twice(r, n):
     # cleaned to the bare name before the start, so the namesake ran)
     for path in ["./top.sh", "bin/../top.sh", "./lnk.sh", "top.sh"]:   # the last one is a bare name: $PATH decides
         ops.append(f"ex.rel path={path} variant=cwdfile")
+    ops.append("ex.rel path=top.sh variant=relpath")
     ops.append("ex.rel path=rel variant=blank")
     ops.append("ex.rel path=abs variant=blank")
     ops.append("ex.rel path=current/../bin/probe.sh variant=bad")
